@@ -38,6 +38,10 @@ for d in sorted(glob.glob(V + "/seeded/*/")):
                 caught.append("%s `%s` %s" % (pid, mm.group(1), mm.group(2)))
             elif "UNDECIDED" in l:
                 caught.append("%s UNDECIDED" % pid)
+    if not caught and c.get("detected_thorough"):
+        for l in c.get("thorough_check", {}).get("lines", []):
+            mm = re.search(r"replay=\S+/([^/]+?)\.([A-Za-z_0-9]+(?:\.[a-z_]+)*\.\d+)\.json", l)
+            if mm: caught.append("(thorough tier only) `%s` %s" % (mm.group(1), mm.group(2)))
     out.append("| %s | %s | %s | %s | %s |" % (sid, m.get("site", ""), (m.get("needs_to_manifest", "") or "")[:160].replace("|", "\\|"), "yes" if c.get("confirmed") else ("no" if c else "not run"), "; ".join(dict.fromkeys(caught))[:400] if caught else ("MISSED" if c else "")))
 out.append("")
 txt = "\n".join(out)
